@@ -85,6 +85,10 @@ def _find_nodes(module_node, pos, until_pos):
             parent_node = parent_node.parent
 
         nodes = _remove_unwanted_expression_nodes(parent_node, pos, until_pos)
+        if all(n.type in ('newline', 'endmarker') for n in nodes):
+            # An empty range at the end of a line selects nothing but the line
+            # break (or the end of the file).
+            raise RefactoringError('Cannot extract anything from that')
 
     # If the user marks just a return statement, we return the expression
     # instead of the whole statement, because the user obviously wants to
